@@ -356,10 +356,158 @@ class Normalizer:
                                 continue
                         i += 1
 
+    def _canonical_defaults(self):
+        """`v = D` immediately followed by an if / elif chain without `else` whose every branch (re)assigns v is the same chain
+        with `else: v = D` (D a constant, a name or an attribute: evaluating it later cannot be observed; the tests do not read v)."""
+        for f in self.prog.functions.values():
+            for n in ast.walk(f.node):
+                for fld in ("body", "orelse", "finalbody"):
+                    lst = getattr(n, fld, None)
+                    if not (isinstance(lst, list) and lst and isinstance(lst[0], ast.stmt)):
+                        continue
+                    i = 0
+                    while i + 1 < len(lst):
+                        a, b = lst[i], lst[i + 1]
+                        ok = isinstance(a, ast.Assign) and len(a.targets) == 1 and isinstance(a.targets[0], ast.Name) \
+                            and isinstance(a.value, (ast.Constant, ast.Name, ast.Attribute)) and isinstance(b, ast.If)
+                        if ok:
+                            v = a.targets[0].id
+                            chain, cur = [], b
+                            while True:
+                                chain.append(cur)
+                                if len(cur.orelse) == 1 and isinstance(cur.orelse[0], ast.If):
+                                    cur = cur.orelse[0]
+                                    continue
+                                break
+                            last = chain[-1]
+                            assigns_v = lambda body: any(isinstance(s_, ast.Assign) and len(s_.targets) == 1 and isinstance(s_.targets[0], ast.Name)
+                                                         and s_.targets[0].id == v for s_ in body)
+                            reads_v = any(isinstance(x, ast.Name) and x.id == v for c in chain for x in ast.walk(c.test))
+                            dep = {x.id for x in ast.walk(a.value) if isinstance(x, ast.Name)}
+                            writes_dep = any(isinstance(x, ast.Name) and x.id in dep and not isinstance(x.ctx, ast.Load) for c in chain for x in ast.walk(c))
+                            if not last.orelse and all(assigns_v(c.body) for c in chain) and not reads_v and not writes_dep \
+                                    and not any(isinstance(x, (ast.Call, ast.NamedExpr)) for c in chain for x in ast.walk(c.test) if False):
+                                last.orelse = [a]
+                                del lst[i]
+                                self.log.append(f"{f.qualname}:{a.lineno} <- default assignment of `{v}` moved into the else branch")
+                                continue
+                        i += 1
+
+    def _canonical_range_offsets(self):
+        """`for j in range(c, E)` with an integer constant c != 0 (step 1) is `for j__0 in range(0, E - c): j = j__0 + c`: loops
+        are counted from zero, the shifted index is an ordinary local (`range(1, W + 1)` with `(j-1)*N` is `range(W)` with `j*N`)."""
+        for f in self.prog.functions.values():
+            taken = {n.id for n in ast.walk(f.node) if isinstance(n, ast.Name)}
+            for n in ast.walk(f.node):
+                if not (isinstance(n, ast.For) and isinstance(n.target, ast.Name) and isinstance(n.iter, ast.Call) and isinstance(n.iter.func, ast.Name)
+                        and n.iter.func.id == "range" and len(n.iter.args) == 2 and not n.iter.keywords):
+                    continue
+                lo, hi = n.iter.args
+                c = lo.value if isinstance(lo, ast.Constant) and isinstance(lo.value, int) and not isinstance(lo.value, bool) else None
+                if isinstance(lo, ast.UnaryOp) and isinstance(lo.op, ast.USub) and isinstance(lo.operand, ast.Constant) and isinstance(lo.operand.value, int):
+                    c = -lo.operand.value
+                if not c:
+                    continue
+                v = n.target.id
+                v0 = v + "__0"
+                if v0 in taken:
+                    continue
+                new_hi = ast.BinOp(left=hi, op=ast.Sub() if c > 0 else ast.Add(), right=ast.Constant(abs(c)))
+                n.iter.args = [ast.Constant(0), new_hi]
+                n.target = ast.Name(v0, ast.Store())
+                shift = ast.Assign(targets=[ast.Name(v, ast.Store())],
+                                   value=ast.BinOp(left=ast.Name(v0, ast.Load()), op=ast.Add() if c > 0 else ast.Sub(), right=ast.Constant(abs(c))))
+                n.body.insert(0, shift)
+                for x in (n.iter, n.target, shift):
+                    ast.copy_location(x, n)
+                    ast.fix_missing_locations(x)
+                ast.fix_missing_locations(n)
+                self.log.append(f"{f.qualname}:{n.lineno} <- range({c}, ...) counted from zero")
+
+    def _canonical_annotated_assignments(self):
+        """Inside a function `target: T = value` is `target = value`: the annotation of a local is never evaluated and that of an
+        attribute or subscript target is evaluated and dropped.  (Class-level and module-level annotations are left alone.)"""
+        for f in self.prog.functions.values():
+            for n in ast.walk(f.node):
+                for fld in ("body", "orelse", "finalbody"):
+                    lst = getattr(n, fld, None)
+                    if not (isinstance(lst, list) and lst and isinstance(lst[0], ast.stmt)):
+                        continue
+                    for i, st in enumerate(lst):
+                        if isinstance(st, ast.AnnAssign) and st.value is not None and not isinstance(n, ast.ClassDef):
+                            lst[i] = ast.copy_location(ast.Assign(targets=[st.target], value=st.value), st)
+                            ast.fix_missing_locations(lst[i])
+                            self.log.append(f"{f.qualname}:{st.lineno} <- annotated assignment read as a plain assignment")
+
+    def _canonical_counting_whiles(self):
+        """`i = E0; while i >= c: BODY; i -= 1` is `for i in range(E0, c - 1, -1): BODY`, and `while i < E: BODY; i += 1` is
+        `for i in range(E0, E): BODY` - provided the counter is stepped exactly once, as the last statement of the body, nothing in
+        BODY jumps (`continue` would skip the step, `break` is fine) or assigns it, the bound does not change in BODY, and the counter
+        is not read after the loop (a `for` leaves it one step earlier)."""
+        for f in self.prog.functions.values():
+            for n in ast.walk(f.node):
+                for fld in ("body", "orelse", "finalbody"):
+                    lst = getattr(n, fld, None)
+                    if not (isinstance(lst, list) and lst and isinstance(lst[0], ast.stmt)):
+                        continue
+                    i = 0
+                    while i + 1 < len(lst):
+                        a, w = lst[i], lst[i + 1]
+                        i += 1
+                        if not (isinstance(a, ast.Assign) and len(a.targets) == 1 and isinstance(a.targets[0], ast.Name) and isinstance(w, ast.While)
+                                and not w.orelse and isinstance(w.test, ast.Compare) and len(w.test.ops) == 1 and isinstance(w.test.left, ast.Name)
+                                and w.test.left.id == a.targets[0].id and len(w.body) >= 2):
+                            continue
+                        v = a.targets[0].id
+                        step = w.body[-1]
+                        if not (isinstance(step, ast.AugAssign) and isinstance(step.target, ast.Name) and step.target.id == v
+                                and isinstance(step.value, ast.Constant) and step.value.value == 1 and isinstance(step.op, (ast.Add, ast.Sub))):
+                            continue
+                        body = w.body[:-1]
+                        op = w.test.ops[0]
+                        bound = w.test.comparators[0]
+                        down = isinstance(step.op, ast.Sub)
+                        if down and not isinstance(op, (ast.GtE, ast.Gt)) or (not down and not isinstance(op, (ast.Lt, ast.LtE))):
+                            continue
+                        inner = [x for st in body for x in ast.walk(st)]
+                        if any(isinstance(x, ast.Continue) for x in inner):
+                            continue
+                        if any(isinstance(x, ast.Name) and x.id == v and not isinstance(x.ctx, ast.Load) for x in inner):
+                            continue
+                        bnames = {x.id for x in ast.walk(bound) if isinstance(x, ast.Name)}
+                        if any(isinstance(x, (ast.Call, ast.Attribute, ast.Subscript)) for x in ast.walk(bound)):
+                            continue
+                        if any(isinstance(x, ast.Name) and x.id in bnames and not isinstance(x.ctx, ast.Load) for x in inner):
+                            continue
+                        # the counter must not be read after the loop (in this block or, conservatively, anywhere later in the function)
+                        later = [x for st in lst[i + 1:] for x in ast.walk(st)]
+                        if any(isinstance(x, ast.Name) and x.id == v and isinstance(x.ctx, ast.Load) for x in later):
+                            nxt = next((x for st in lst[i + 1:] for x in ast.walk(st) if isinstance(x, ast.Name) and x.id == v), None)
+                            if nxt is None or isinstance(nxt.ctx, ast.Load):
+                                continue
+                        one = ast.Constant(1)
+                        if down:
+                            stop = ast.BinOp(bound, ast.Sub(), one) if isinstance(op, ast.GtE) else bound
+                            rng = [a.value, stop, ast.UnaryOp(ast.USub(), ast.Constant(1))]
+                        else:
+                            stop = ast.BinOp(bound, ast.Add(), one) if isinstance(op, ast.LtE) else bound
+                            rng = [a.value, stop]
+                        loop = ast.For(target=ast.Name(v, ast.Store()), iter=ast.Call(ast.Name("range", ast.Load()), rng, []), body=body, orelse=[],
+                                       type_comment=None)
+                        ast.copy_location(loop, w)
+                        ast.fix_missing_locations(loop)
+                        lst[i - 1:i + 1] = [loop]
+                        self.log.append(f"{f.qualname}:{w.lineno} <- counting while loop read as for {v} in range(...)")
+                        i -= 1
+
     def run(self):
+        self._canonical_annotated_assignments()
+        self._canonical_counting_whiles()
         self._canonical_pool_calls()
         self._canonical_sorts()
         self._canonical_temps()
+        self._canonical_defaults()
+        self._canonical_range_offsets()
         if not self.known:
             return self
         # stand-ins for renamed reference helpers are fixed first: they stay functions
